@@ -36,8 +36,8 @@ PRIMS = ['allocate_string', 'format_error', 'error', 'deriv_error', 'check_deriv
          'eval_error', 'check_args', 'check_result', 'check_const_arg', 'check_int_arg', 'check_uint_arg',
          'check_zero_func_args', 'check_bessel_args', 'check_coupling_args']
 # bindings whose formulas are transcribed by hand into lean/MpVerif/C16/Deriv.lean (HasDerivAt theorems)
-TRANSCRIBED = ['amplgsl_log1p', 'amplgsl_expm1', 'amplgsl_hypot', 'amplgsl_hypot3', 'amplgsl_sf_log', 'amplgsl_sf_log_abs',
-               'amplgsl_sf_log_1plusx', 'amplgsl_sf_log_1plusx_mx', 'amplgsl_sf_legendre_P2', 'amplgsl_sf_legendre_P3']
+# (round 5: the formulas of the elementary bindings are translated — tr_gsl_formulas.py — and no longer pinned by fingerprint)
+TRANSCRIBED = []
 OTHER_AL = {'check_result', 'format_eval_error', 'format_error', 'allocate_string'}
 
 
@@ -730,6 +730,18 @@ def main(argv):
         if not os.path.exists(hout) or open(hout).read() != htext:
             open(hout, 'w').write(htext)
     except Exception as e:      # (tr_gsl_helpers raises tr_gsl.TranslateError, a different class object when this file runs as __main__)
+        if type(e).__name__ != 'TranslateError':
+            raise
+        helper_problems.append('untranslatable:%s' % e)
+    # value / derivative / Hessian expressions of the elementary bindings -> lean/MpVerif/Gen/GslFormulas.lean
+    import tr_gsl_formulas
+    try:
+        regs0, _ = tr.registrations()
+        ftext = tr_gsl_formulas.emit(tr.decls, regs0)
+        fout = os.path.join(os.path.dirname(out), 'GslFormulas.lean')
+        if not os.path.exists(fout) or open(fout).read() != ftext:
+            open(fout, 'w').write(ftext)
+    except Exception as e:
         if type(e).__name__ != 'TranslateError':
             raise
         helper_problems.append('untranslatable:%s' % e)
